@@ -47,4 +47,8 @@ def run(ctx):
                 "their own vector; the index-based and the pointer-based manager's copies are the same program.")
     nv = evlm.run(ctx, F)
     ctx.floor("E-VLM", "interpreted VarLevelMap situations", nv, 38)
+    ctx.explain("E-PERM.acquire: in the concurrent bubble sort a position is taken for a further swap (blocked.insert) only on the "
+                "`false` edge of a dominating blocked.contains test: two swaps never restructure a common level.")
+    na = esort.check_acquire_guard(ctx, F)
+    ctx.floor("E-PERM.acquire", "position acquisitions in the worker loop", na, 2)
     ctx.not_decided = "observational equivalence of results and node counts across configurations"
